@@ -12,6 +12,10 @@ use vcore::{Local, Report};
 use crate::common::{self, fail, Outcome};
 use crate::matrix;
 
+/// Signature of the known finding (known_findings.json).
+pub const KNOWN_NOTFOUND_CONFLATION: &str =
+    "C09/a context function that itself fails with FunctionIdentifierNotFound is treated as if it were not defined";
+
 const EXTRA_NAMES: [&str; 5] = ["foo", "f1", "math::nope", "str::x", "ä"];
 
 fn all_names() -> Vec<String> {
@@ -25,11 +29,14 @@ const ARGS: [&str; 5] = ["3", "2.5", "\"s\"", "true", "v"];
 enum Stage {
     AsBuilt,
     AfterClone,
+    /// `dst.clone_from(&src)` into an existing context whose switch is the opposite
+    AfterCloneFrom,
     AfterClearFunctions,
     AfterClear,
     ToggledTwice,
 }
-const STAGES: [Stage; 5] = [Stage::AsBuilt, Stage::AfterClone, Stage::AfterClearFunctions, Stage::AfterClear, Stage::ToggledTwice];
+const STAGES: [Stage; 6] =
+    [Stage::AsBuilt, Stage::AfterClone, Stage::AfterClearFunctions, Stage::AfterClear, Stage::ToggledTwice, Stage::AfterCloneFrom];
 
 #[derive(Clone, Debug)]
 pub struct Config {
@@ -37,6 +44,9 @@ pub struct Config {
     kind: Kind,
     disabled: bool,
     user_fn: bool,
+    /// which behaviour the user function has (0 = records and returns (1, arg); 1 = fails with
+    /// FunctionIdentifierNotFound(its own name); 2 = fails with FunctionIdentifierNotFound("max"))
+    uf_kind: u8,
     variable: bool,
     stage: usize,
 }
@@ -44,7 +54,7 @@ pub struct Config {
 impl Config {
     fn to_json(&self, src: &str) -> J {
         json!({"kind": "resolution", "name": self.name, "ctx_kind": format!("{:?}", self.kind), "disabled": self.disabled,
-               "user_fn": self.user_fn, "variable": self.variable, "stage": self.stage, "src": src})
+               "user_fn": self.user_fn, "uf_kind": self.uf_kind, "variable": self.variable, "stage": self.stage, "src": src})
     }
     fn from_json(j: &J) -> Option<(Config, String)> {
         let kind = match j["ctx_kind"].as_str()? {
@@ -59,6 +69,7 @@ impl Config {
                 kind,
                 disabled: j["disabled"].as_bool()?,
                 user_fn: j["user_fn"].as_bool()?,
+                uf_kind: j["uf_kind"].as_u64().unwrap_or(0) as u8,
                 variable: j["variable"].as_bool()?,
                 stage: j["stage"].as_u64()? as usize,
             },
@@ -73,7 +84,12 @@ impl Config {
             c.vars.insert("v".into(), RV::Int(7));
             c.funcs.insert("m".into(), UF::Tag(9));
             if self.user_fn {
-                c.funcs.insert(self.name.clone(), UF::Tag(1));
+                let f = match self.uf_kind {
+                    0 => UF::Tag(1),
+                    1 => UF::NotFound(self.name.clone()),
+                    _ => UF::NotFound("max".into()),
+                };
+                c.funcs.insert(self.name.clone(), f);
             }
             if self.variable {
                 c.vars.insert(self.name.clone(), RV::Int(41));
@@ -115,6 +131,16 @@ fn apply_stage(real: Real, model: &mut Ctx, stage: Stage) -> Result<Real, String
             let c = h.clone();
             // the original is dropped: resolution must not depend on it
             h = c;
+        },
+        Stage::AfterCloneFrom => {
+            use evalexpr::{ContextWithMutableFunctions, ContextWithMutableVariables};
+            let mut dst = adapt::HCtx::new();
+            let d = h.are_builtin_functions_disabled();
+            dst.set_builtin_functions_disabled(!d).map_err(|e| format!("{:?}", e))?;
+            dst.set_value("stale".into(), evalexpr::Value::Int(1)).map_err(|e| format!("{:?}", e))?;
+            dst.set_function("stale_fn".into(), evalexpr::Function::new(|v| Ok(v.clone()))).map_err(|e| format!("{:?}", e))?;
+            dst.clone_from(&h);
+            h = dst;
         },
         Stage::AfterClearFunctions => {
             h.clear_functions();
@@ -197,6 +223,20 @@ pub fn check(cfg: &Config, src: &str, is_call: bool, l: &mut Local) -> Outcome {
         "unknown name"
     };
     if !outcome_matches(&exp.result, &got) {
+        if cfg.user_fn && cfg.uf_kind != 0 && model.funcs.contains_key(&cfg.name) {
+            // The user function itself fails with FunctionIdentifierNotFound(..): its error must
+            // come back unchanged. Root-cause key: does the implementation behave exactly as if the
+            // function were not defined at all (builtin fallback / unknown function)?
+            let mut undefined = model.clone();
+            undefined.funcs.remove(&cfg.name);
+            let as_if_undefined = run_full(&ast, &mut undefined, false, matrix::unit());
+            let sig = if outcome_matches(&as_if_undefined.result, &got) {
+                KNOWN_NOTFOUND_CONFLATION.to_string()
+            } else {
+                "C09/a context function failing with FunctionIdentifierNotFound: neither its error nor the not-defined behaviour".to_string()
+            };
+            return fail(sig, outcome_canon(&exp.result), outcome_canon(&got), case, src.len());
+        }
         return fail(
             format!("C09/wrong resolution ({}; {})", who, if is_call { "call form" } else { "variable form" }),
             outcome_canon(&exp.result),
@@ -221,16 +261,16 @@ fn configs() -> Vec<Config> {
     let mut v = Vec::new();
     for name in all_names() {
         for disabled in [false, true] {
-            for user_fn in [false, true] {
+            for (user_fn, uf_kind) in [(false, 0u8), (true, 0), (true, 1), (true, 2)] {
                 for variable in [false, true] {
                     for stage in 0..STAGES.len() {
-                        v.push(Config { name: name.clone(), kind: Kind::HashMap, disabled, user_fn, variable, stage });
+                        v.push(Config { name: name.clone(), kind: Kind::HashMap, disabled, user_fn, uf_kind, variable, stage });
                     }
                 }
             }
         }
-        v.push(Config { name: name.clone(), kind: Kind::Empty, disabled: true, user_fn: false, variable: false, stage: 0 });
-        v.push(Config { name: name.clone(), kind: Kind::EmptyWithBuiltins, disabled: false, user_fn: false, variable: false, stage: 0 });
+        v.push(Config { name: name.clone(), kind: Kind::Empty, disabled: true, user_fn: false, uf_kind: 0, variable: false, stage: 0 });
+        v.push(Config { name: name.clone(), kind: Kind::EmptyWithBuiltins, disabled: false, user_fn: false, uf_kind: 0, variable: false, stage: 0 });
     }
     v
 }
@@ -266,7 +306,7 @@ pub fn run(rep: &Report) {
     rep.set_rule(
         "complete configuration matrix: 49 builtin names + 5 non-builtin names x {HashMapContext switch off/on x user \
          function named n present/absent x variable named n present/absent x (as built, after clone, after \
-         clear_functions, after clear, switch toggled twice), EmptyContext, EmptyContextWithBuiltinFunctions} x call \
+         clear_functions, after clear, switch toggled twice, after clone_from into a context with the opposite switch), user function either recording or itself failing with FunctionIdentifierNotFound, EmptyContext, EmptyContextWithBuiltinFunctions} x call \
          forms n(x), n x, n(x, 2), m n x, n m x, n(), n (), `n; n(1)` and variable forms n, n + 1, n - 1, `n, 1` with x \
          from {int, float, string, bool, variable}; oracle: the reference interpreter's resolution rule (context \
          function first, builtin only if none and not disabled, else FunctionIdentifierNotFound(n) exactly; variables \
